@@ -4,6 +4,7 @@ package c13
 import (
 	"bufio"
 	"bytes"
+	"encoding/json"
 	"errors"
 	"fmt"
 	"io"
@@ -73,6 +74,11 @@ type Case struct {
 	// configuration is changed to TimeoutMs before the second.
 	PreludeKind  int  `json:"prelude_kind,omitempty"`
 	PreludeTolMs uint `json:"prelude_tolerance_ms"`
+	// ReadTimeoutMs: the configuration's read time-out for the input device (the file handler does not use it).
+	// FromFile: the configuration is not built in memory but written out as the JSON control file and loaded
+	// with the project's loader, as the programs do.
+	ReadTimeoutMs uint `json:"read_timeout_ms"`
+	FromFile      bool `json:"config_from_control_file"`
 }
 
 var errTimeout = errors.New("read /dev/ttyUSB0: i/o timeout")
@@ -224,9 +230,25 @@ func check(c Case, o *stats.Obs) error {
 		return nil
 	}
 
-	cfg := &jsonconfig.Config{TimeoutOnEOFMilliSeconds: c.TimeoutMs, WaitTimeOnEOFMilliseconds: c.WaitMs}
+	cfg := &jsonconfig.Config{TimeoutOnEOFMilliSeconds: c.TimeoutMs, WaitTimeOnEOFMilliseconds: c.WaitMs, ReadTimeoutMilliSeconds: c.ReadTimeoutMs}
 	if c.Prelude {
 		cfg.TimeoutOnEOFMilliSeconds = c.PreludeTolMs
+	}
+	if c.FromFile {
+		js, _ := json.Marshal(cfg)
+		f, err := os.CreateTemp(os.Getenv("VERIF_SCRATCH"), "control-*.json")
+		if err == nil {
+			f.Write(js)
+			f.Close()
+			loaded, lerr := jsonconfig.GetJSONConfigFromFile(f.Name(), nil)
+			os.Remove(f.Name())
+			if lerr != nil || loaded == nil {
+				o.Key = "control-file"
+				return fmt.Errorf("the JSON control file %s could not be loaded: %v", js, lerr)
+			}
+			cfg = loaded
+			o.Class("config-from-control-file")
+		}
 	}
 	if c.SysLog {
 		cfg.SystemLog = log.New(io.Discard, "", 0)
@@ -488,6 +510,8 @@ func gen1(t *rapid.T) Case {
 			c.PreludeTolMs = rapid.SampledFrom([]uint{0, 25, 40}).Draw(t, "preludeTolMs")
 		}
 	}
+	c.ReadTimeoutMs = rapid.SampledFrom([]uint{0, 0, 100, 5000}).Draw(t, "readTimeoutMs")
+	c.FromFile = rapid.IntRange(0, 3).Draw(t, "fromFile") == 1
 	c.OtherErr = rapid.SampledFrom([]string{"", "", "eio", "enodev", "enxio", "reset", "closed", "unexpected-eof", "no-progress"}).Draw(t, "otherErr")
 	c.StallAt = -1
 	if c.TimeoutMs > 0 && rapid.IntRange(0, 3).Draw(t, "stall") == 0 {
